@@ -40,14 +40,20 @@ def handle (fn : String) : Handler := fun a _impl =>
             | "add" => ctTranslateBalanced l A.ct B.ct false
             | "sub" => ctTranslateBalanced l A.ct B.ct true
             | "negate" => ctNegate l A.ct
-            | "multiply" | "square" =>
-              let B' := if op == "square" then A.ct else B.ct
+            | "multiply" =>
               match A.scheme with
-              | .ckks => ctMultiplyDyadic l A.ct B'
-              | .bgv => bgvMultiply l A.ct B'
+              | .ckks => ctMultiplyDyadic l A.ct B.ct
+              | .bgv => bgvMultiply l A.ct B.ct
               | .bfv => do
                 let bt ← Drv.C10.mkTablesAll l.k (l.tool.baseBsk.base.toList.map (·.value))
-                bfvMultiply l bt A.ct B'
+                bfvMultiply l bt A.ct B.ct
+            | "square" =>      -- the code's squaring routines have their OWN model (size-2 fast path, fallback to the product)
+              match A.scheme with
+              | .ckks => ckksSquare l A.ct
+              | .bgv => bgvSquare l A.ct
+              | .bfv => do
+                let bt ← Drv.C10.mkTablesAll l.k (l.tool.baseBsk.base.toList.map (·.value))
+                bfvSquare l bt A.ct
             | "multiply_plain" => ctMultiplyPlainNtt l A.ct plainB
             | "add_plain" => do let c0 ← rnsAdd l (A.ct.polys.getD 0 #[]) plainB; pure { A.ct with polys := A.ct.polys.set! 0 c0 }
             | "sub_plain" => do let c0 ← rnsSub l (A.ct.polys.getD 0 #[]) plainB; pure { A.ct with polys := A.ct.polys.set! 0 c0 }
